@@ -107,3 +107,29 @@ func (c *FnCtx) sortSliceModel(cc *ssa.CallCommon) bool {
 }
 
 func trimBars(s string) string { return strings.Trim(s, "|") }
+
+// binaryAppendModel: (encoding/binary.bigEndian).AppendUint16/32/64(b, v) == append(b, big-endian bytes of v).
+func (c *FnCtx) binaryAppendModel(name string, cc *ssa.CallCommon, args []Val) (Val, bool) {
+	var n int
+	switch name {
+	case "(encoding/binary.bigEndian).AppendUint16":
+		n = 2
+	case "(encoding/binary.bigEndian).AppendUint32":
+		n = 4
+	case "(encoding/binary.bigEndian).AppendUint64":
+		n = 8
+	default:
+		return Val{}, false
+	}
+	c.used["model: encoding/binary.BigEndian.AppendUintN(b, v) == append(b, bytes of v most significant first)"] = true
+	b, v := args[1], args[2]
+	var bytes []string
+	for i := n - 1; i >= 0; i-- {
+		if c.mode == ModeBV {
+			bytes = append(bytes, fmt.Sprintf("((_ extract %d %d) %s)", 8*i+7, 8*i, v.T))
+		} else {
+			bytes = append(bytes, "(mod (div "+v.T+" "+smtInt(pow2(8*i))+") 256)")
+		}
+	}
+	return c.appendBytes(cc, b, cc.Args[1].Type(), bytes), true
+}
